@@ -42,7 +42,7 @@ def base_event(op, data, out, before):
             "x0": "0.0", "size": 0, "keys": [], "n": "0.0", "counts": [], "probs": [], "zero": []}
 
 
-def make_data(rng, n, ncols, frame, classes=(0.0, 1.0, 2.0)):
+def make_data(rng, n, ncols, frame, classes=(0.0, 1.0, 2.0), style=None):
     if classes == (0.0, 1.0, 2.0) and rng.random() < 0.3:
         # class labels that are large and close to each other (period codes, ids): distinct labels are distinct classes
         classes = rng.choice([(202401.0, 202402.0, 202403.0), (1000000.0, 1000001.0, 1000002.0)])
@@ -51,13 +51,17 @@ def make_data(rng, n, ncols, frame, classes=(0.0, 1.0, 2.0)):
     if frame:
         # how the columns of a DataFrame may be labelled: strings, pandas' default RangeIndex, a RangeIndex that does not start at 0 or has a
         # step, plain integer labels in arbitrary order - the column ARGUMENT is always a label, never a position
-        style = rng.choice(["str", "str", "range0", "range1", "rangestep", "ints", "mixed"])
+        style = style or rng.choice(["str", "str", "range0", "range1", "rangestep", "ints", "mixed", "dup"])
         if style == "mixed":
             # a mixed-type frame: an integer-typed feature column, float columns, and a text column at the end
             df = pd.DataFrame(a, columns=names)
             df[names[0]] = df[names[0]].astype("int64")
             df[NOTE] = ["r%d" % i for i in range(n)]
             return _row_labels(rng, df), names
+        if style == "dup" and ncols >= 4:
+            # two feature columns share one label (frames glued together with pd.concat(axis=1)); the columns an injector is pointed at are unique
+            df = pd.DataFrame(a, columns=[names[0]] + ["s"] * (ncols - 3) + [names[-2], names[-1]])
+            return _row_labels(rng, df), list(df.columns)
         if style == "range0":
             df = pd.DataFrame(a)
         elif style == "range1":
@@ -111,16 +115,21 @@ class _Pool:
         return lambda: objs.setdefault(name, cls())
 
 
-def call(rng, kind, n, ncols, frame, window=None, seed=0, pool=None):
+def call(rng, kind, n, ncols, frame, window=None, seed=0, pool=None, style=None):
     from menelaus import injection as I0
     I = pool if pool is not None else _Pool(I0, False)
-    data, names = make_data(rng, n, ncols, frame)
+    data, names = make_data(rng, n, ncols, frame, style=style)
     before = mat(data)
     f, t = window if window is not None else sorted((rng.randint(0, n), rng.randint(0, n)))
     np.random.seed(seed % (2 ** 32))
     ycol = ncols
+
+    def upos():
+        """a column position whose label is unique in the frame (an injector is pointed at one column; the OTHER columns may share labels)"""
+        ok = [k for k in range(1, ncols + 1) if list(map(str, names)).count(str(names[k - 1])) == 1] if frame else list(range(1, ncols + 1))
+        return rng.choice(ok)
     if kind == "swap":
-        c1, c2 = rng.randint(1, ncols), rng.randint(1, ncols)
+        c1, c2 = upos(), upos()
         out = I.FeatureSwapInjector()(data, f, t, colarg(frame, names, c1), colarg(frame, names, c2))
         e = base_event(kind, data, out, before)
         e.update(c1=c1, c2=c2)
@@ -137,13 +146,13 @@ def call(rng, kind, n, ncols, frame, window=None, seed=0, pool=None):
         e = base_event(kind, data, out, before)
         e.update(c1=ycol, k1=num(k1), k2=num(k2), knew=num(kn))
     elif kind == "shift":
-        c1 = rng.randint(1, ncols)
+        c1 = upos()
         factor, alpha = rng.choice([0.5, 1.0, -2.0, 0.0]), rng.choice([0.001, 0.5, 0.0])
         out = I.FeatureShiftInjector()(data, f, t, colarg(frame, names, c1), factor, alpha=alpha)
         e = base_event(kind, data, out, before)
         e.update(c1=c1, factor=num(factor), alpha=num(alpha))
     elif kind == "brownian":
-        c1 = rng.randint(1, ncols)
+        c1 = upos()
         x0 = rng.choice([0.0, 1.5, -3.0])
         out = I.BrownianNoiseInjector()(data, f, t, colarg(frame, names, c1), x0, random_state=seed % 1000)
         e = base_event(kind, data, out, before)
